@@ -10,3 +10,5 @@ open LhasaV.Props.C09
 #print axioms null_no_fault
 #print axioms pm2_no_fault
 #print axioms pm1_no_fault
+#print axioms lh1_no_fault
+#print axioms all_methods_covered
